@@ -3,7 +3,10 @@
 // starting with Bad must produce at least one failed obligation.
 package fx
 
-import "encoding/binary"
+import (
+	"encoding/binary"
+	"errors"
+)
 
 func GoodIndex(d []byte) byte {
 	if len(d) < 3 {
@@ -149,3 +152,123 @@ var table = map[int]int{1: 2}
 
 func BadWritesTable(k int) { table[k] = 1 }
 func GoodReadsTable(k int) int { return table[k] }
+
+// ---------------------------------------------------------------- flattened view
+
+type conn struct {
+	calls int
+	last  error
+}
+
+func (c *conn) exchange(b []byte) ([]byte, error) {
+	if len(b) == 0 {
+		return nil, errEmpty
+	}
+	c.calls++
+	return b, nil
+}
+
+var errEmpty = errors.New("empty")
+
+// step is a helper with an error exit and a success exit.
+func (c *conn) step(b []byte) error {
+	reply, err := c.exchange(b)
+	if err != nil {
+		return err
+	}
+	if len(reply) < 2 {
+		return errEmpty
+	}
+	return nil
+}
+
+// ViewCaller: spliced, the caller's error test pairs only with the helper's error exits.
+func (c *conn) ViewCaller(b []byte) int {
+	if err := c.step(b); err != nil {
+		return 1
+	}
+	return 0
+}
+
+// ---------------------------------------------------------------- loop runs (three spellings of one fill, one compare)
+
+type Ser struct{ N uint8 }
+
+func (s *Ser) FillIndex(b SerializeBuffer) error {
+	n := int(s.N % 16)
+	d, err := b.AppendBytes(n + 1)
+	if err != nil {
+		return err
+	}
+	for i := 0; i < n; i++ {
+		d[i] = uint8(i + 1)
+	}
+	d[n] = uint8(n)
+	return nil
+}
+
+func (s *Ser) FillRange(b SerializeBuffer) error {
+	n := int(s.N % 16)
+	d, err := b.AppendBytes(n + 1)
+	if err != nil {
+		return err
+	}
+	for i := range d[:n] {
+		d[i] = uint8(i) + 1
+	}
+	d[n] = uint8(n)
+	return nil
+}
+
+func fill(d []byte, n int) {
+	v := uint8(1)
+	for i := 0; i < n; i++ {
+		d[i] = v
+		v++
+	}
+}
+
+func (s *Ser) FillHelper(b SerializeBuffer) error {
+	n := int(s.N % 16)
+	d, err := b.AppendBytes(n + 1)
+	if err != nil {
+		return err
+	}
+	fill(d, n)
+	d[n] = uint8(n)
+	return nil
+}
+
+// BadFillShort leaves the last pad byte unwritten.
+func (s *Ser) BadFillShort(b SerializeBuffer) error {
+	n := int(s.N % 16)
+	d, err := b.AppendBytes(n + 1)
+	if err != nil {
+		return err
+	}
+	for i := 0; i < n-1; i++ {
+		d[i] = uint8(i + 1)
+	}
+	d[n] = uint8(n)
+	return nil
+}
+
+// BadStale ors into a byte it never assigned.
+func (s *Ser) BadStale(b SerializeBuffer) error {
+	d, err := b.PrependBytes(2)
+	if err != nil {
+		return err
+	}
+	if s.N > 0 {
+		d[0] = 0x80
+	}
+	d[0] |= s.N & 0x0f
+	d[1] = 0
+	return nil
+}
+
+// SerializeBuffer mirrors the two gopacket methods the engine has contracts for.
+type SerializeBuffer interface {
+	PrependBytes(n int) ([]byte, error)
+	AppendBytes(n int) ([]byte, error)
+}
